@@ -2,7 +2,7 @@ _C15_NRF_INC = ['-I' + _os.path.join(_os.path.dirname(_os.path.abspath(__file__)
                 '-I$REPO/bluetoe/bindings/nordic/include']
 
 target('c15_llbuf', 'engines/comp/c15_llbuf.cpp', inc=_C15_NRF_INC,
-       quick=dict(cases=200000, size=150), thorough=dict(cases=4000000, size=250))
+       quick=dict(cases=600000, size=150), thorough=dict(cases=4000000, size=250))
 
 _C15_GEN = ('rapidcheck picks one of 16 instantiated ll_data_pdu_buffer< Tx, Rx > (29/29 ... 300/520, default layout and the real nRF '
             'encrypted layout) and a history of link layer operations (commit in one or two steps with exact or maximum allocation, '
